@@ -83,6 +83,32 @@ def check_case(ctx, cs):
         if crv.degree != p or crv.ctrlpts_size != ncp:
             ctx.violate(site, tg + ["structure"], small, {"degree": crv.degree, "ctrlpts_size": crv.ctrlpts_size})
             return
+        # fitting commutes with translations and uniform scalings (the parameters are ratios of lengths): the same data far from the
+        # origin (offset 2^20 + 0.1 per coordinate, not a machine number) and in a very small unit (factor 2^-30) - same knot vector, control points moved / scaled
+        base = [list(x) for x in crv.ctrlpts]
+        for label, fwd, back, tolv in (("offset=2^20+0.1", lambda q: [x + (2.0 ** 20 + 0.1) for x in q], lambda q: [x - (2.0 ** 20 + 0.1) for x in q], 1e-6),
+                                       ("unit=2^-30", lambda q: [x * 2.0 ** -30 for x in q], lambda q: [x * 2.0 ** 30 for x in q], 1e-7)):
+            def variant():
+                data = [fwd(list(x)) for x in pts]
+                if op == "interp_curve":
+                    return fitting.interpolate_curve(data, p, centripetal=True) if c["centr"] else fitting.interpolate_curve(data, p)
+                return fitting.approximate_curve(data, p, centripetal=c["centr"], ctrlpts_size=ncp)
+            ok, cv2 = _try(ctx, site, tg + [label], small, variant)
+            if not ok:
+                continue
+            if not close_seq(list(cv2.knotvector), kv, 1e-9):
+                ctx.violate(site, tg + [label, "knot_vector"], small, {"expected": kv, "got": list(cv2.knotvector)})
+                continue
+            got = [back(list(q)) for q in cv2.ctrlpts]
+            if not all(vclose(a_, b_, tolv) for a_, b_ in zip(got, base)):
+                ctx.violate(site, tg + [label], small, {"got0": got[0], "expected0": base[0]})
+            else:
+                # the chord lengths change with this map, so only data whose last coordinate is constant keep their parameters
+                if len({q[-1] for q in pts}) != 1:
+                    continue
+                got = [back(list(q)) for q in cv2.ctrlpts]
+                if not close_seq(list(cv2.knotvector), kv, 1e-9) or not all(vclose(a, b, 1e-7) for a, b in zip(got, base)):
+                    ctx.violate(site, tg + [label], small, {"got0": got[0], "expected0": base[0]})
         if not close_seq(list(crv.knotvector), kv, 1e-9):
             ctx.violate(site, tg + ["knot_vector"], small, {"expected": kv, "got": list(crv.knotvector)})
             return
